@@ -56,6 +56,12 @@ claim("C05", "model-based property testing of token histories (rapid) with a byt
       "is byte-equal before and after; a final sweep submits every genuine outstanding token, which must still work.",
       TRUST)
 
+claim("C07", "model-based property testing of remember-cookie histories (rapid) against a model set of live (pid, cookie) pairs + native fuzz on cookie bytes",
+      WM + "remember machine: PIDs containing ';', ';;', non-ASCII and non-UTF-8 bytes, very long PIDs and the library-built OAuth2 PIDs (through real OAuth2 logins with rm); ops: login with rm absent/false/true, new session, visits, "
+      "cookie theft between browsers, replay of old cookies, arbitrary cookie bytes, logout, password reset. Oracle: model set of live pairs with rotate-once semantics: a live cookie re-authenticates exactly its user, "
+      "marks the session half-authed (also for the presenting request: no full-auth route is passed), is replaced by a fresh cookie and dies in storage; anything else authenticates nobody and is deleted; cookies appear only when asked for.",
+      TRUST)
+
 NOT_YET = "check not built yet in this round (claimed in DESIGN.md; will be claimed once its check is committed)"
 
 def main():
